@@ -10,7 +10,8 @@ CONSTANTS
   MaxEpoch = 2
   MaxOps = 2
   GenHist = FALSE
-  F2Fixed = FALSE
+  F2Fixed = TRUE
+  CuGuard = TRUE
   Profile = ""
 INIT Init
 NEXT Next
